@@ -68,12 +68,29 @@ Example load_save_full_statement_on_a_multiplexer :
   load (0, 0) (save ex_net_mux) = Ok (canon ex_net_mux) /\ proj (canon ex_net_mux) = proj ex_net_mux.
 Proof. vm_compute. repeat split; reflexivity. Qed.
 
-(* outside in_domain the statement fails, e.g. for a negative-zero start value *)
+(* outside in_domain the statement fails: the saver narrows Go ints to the field width and the loader cannot
+   tell a zero field from an absent one.  Each exclusion of in_domain has its witness. *)
+Example load_save_int_truncation_refuted :
+  exists a : attr, attr_okb a = true /\ attr_dom a = false /\ load_attr (0, 0) (save_attr a) <> Ok a.
+Proof.
+  exists {| at_ent := {| e_id := "a"; e_name := "a"; e_desc := ""; e_time := (0, 0) |};
+            at_body := ABInt 0 0 4294967296 false |}.
+  repeat split; try reflexivity. vm_compute. discriminate.
+Qed.
+
+Example load_save_minsize_zero_refuted :
+  exists e : sigenum, enum_okb e = true /\ enum_dom e = false /\ load_enum (0, 0) (save_enum e) <> Ok e.
+Proof.
+  exists {| se_ent := {| e_id := "e"; e_name := "e"; e_desc := ""; e_time := (0, 0) |}; se_values := []; se_minsize := 0 |}.
+  repeat split; try reflexivity. vm_compute. discriminate.
+Qed.
+
+(* ... and for a negative-zero start value *)
 Example load_save_negative_zero_refuted :
   exists s : sig, sig_dom s = false /\
     load_sig (0, 0) {| ev_types := [{| st_ent := {| e_id := "t"; e_name := "t"; e_desc := ""; e_time := (0, 0) |};
                                        st_kind := 2; st_size := 4; st_signed := false; st_min := 0; st_max := 0; st_scale := 0; st_offset := 0 |}];
-                       ev_units := []; ev_enums := []; ev_attrs := []; ev_nodes := [] |} (save_sig s)
+                       ev_units := []; ev_enums := []; ev_attrs := []; ev_nodes := [] |} 64 (save_sig s)
     <> Ok (sig_set_pos s 0).
 Proof.
   exists (SStd {| sh_ent := {| e_id := "s"; e_name := "s"; e_desc := ""; e_time := (0, 0) |}; sh_send := 0;
